@@ -119,6 +119,20 @@ CLAIMED["C03"] = dict(
     technique="Lean 4 proof (interleaving model of the exception path) + E-SHIM fault enumeration + trace validation",
     design="§3 C03, §4")
 
+CLAIMED["C14"] = dict(
+    text="Lean 4 theorems over all sequences of node operations (each is an aggregator handler or mutex-protected step): body invocations in "
+         "flight = my_concurrency <= limit (serial: never two); an accepted message is in exactly one of {running body, queue} and leaves "
+         "through exactly one body invocation, a rejected put changes nothing; broadcast offers each output once to every successor, "
+         "round-robin to exactly one; a rejected message stays with its sender and the edge flips push->pull in the same step; graphs of "
+         "queueing/unlimited nodes conserve the message multiset for every interleaving; wait vertex 0 implies no body running, nothing in "
+         "transit, no reservation open; no body after cancel. Tie: the concurrency tests/updates are re-extracted from the source into the "
+         "model, real node classes run on a scripted mock of the runtime and are compared line by line with the Lean interpreter, "
+         "real-thread runs on 11 topology families with independent monitors.",
+    note="Trusted: Lean kernel, standard axioms, harness/c14 (mock r1 + real runs), source extractor, sampled correspondence. async_node "
+         "gateway lifetime and try_put_and_wait metainfo are monitored, not modelled; atomicity of node operations rests on the aggregator.",
+    technique="Lean 4 proof (node machines + fine-grained network machine, multiset conservation invariants) + regenerated guards + scripted differential",
+    design="§3 C14")
+
 NOT_YET = "check not built yet in this round (planned: DESIGN.md §3); no claim is made"
 
 
